@@ -44,7 +44,7 @@ func VerifC14_SweepHeaders() {
 	case 13:
 		m, w = bldIPv4(vr.Choice("payload", 3), 4), NewIPv4()
 	case 14:
-		m, w = bldIPv6(vr.Choice("chain", 8), vr.Choice("payload", 3), 4), new(IPv6)
+		m, w = bldIPv6(vr.Choice("chain", 10), vr.Choice("payload", 3), 4), new(IPv6)
 	default:
 		m, w = bldEthernet(vr.Choice("payload", 4), 4), NewEthernet()
 	}
